@@ -10,6 +10,7 @@ go to a block start plus an offset up to the block's length.
 import Hts.Lemmas.ReaderProps
 import Hts.Lemmas.ReaderLTSTerm
 import Hts.Lemmas.ReaderLTSExact
+import Hts.Lemmas.ReaderLTSFile
 namespace Hts.Props.C02
 open Hts.Model.Bgzf Hts.Spec.Flat
 
@@ -201,6 +202,49 @@ theorem readahead_refines_sequential (cfg : Cfg) (hc : cfg.OK) (hf : cfg.faults 
   exact ⟨fun b i ok h1 h2 => key b (hord.2.1 b i ok h1 h2).1, fun w ok h1 h2 => key w (hord.2.2 w ok h1 h2).1⟩
 
 open Hts.Model Hts.Model.ReadAhead in
+/-- A path of `n` steps from a reachable state has `n ≤ gmu`: the number of steps any execution of a script of
+definite calls (no `nexts`) can take is bounded (counterpart of `C09.writer_path_bounded`). -/
+theorem readahead_path_bounded (cfg : Cfg) (hc : cfg.OK) (n : Nat) (s t : ReadAhead.State)
+    (hr : Reachable cfg s) (hn : Op.nexts ∉ s.script) (h : StepN cfg n s t) :
+    n + gmu cfg t ≤ gmu cfg s :=
+  path_bounded hc hr hn h
+
+open Hts.Model Hts.Model.ReadAhead in
+/-- Every pending call returns: from every reachable state the execution can be continued to a state where the
+consumer has returned from the last call of its script (or from Close); maximal paths are finite by
+`readahead_path_bounded` and cannot stop elsewhere by `readahead_deadlock_free` (counterpart of
+`C09.writer_calls_return`), for every fault pattern. -/
+theorem readahead_calls_return (cfg : Cfg) (hc : cfg.OK) (s : ReadAhead.State) (hr : Reachable cfg s)
+    (hn : Op.nexts ∉ s.script) : ∃ k u, StepN cfg k s u ∧ ApiDone u :=
+  calls_return hc hr hn
+
+open Hts.Model Hts.Model.Bgzf Hts.Model.ReadAhead Hts.Spec.Flat in
+/-- **Composition (File → Chain).**  For a well-formed file `F`, the protocol over `chainOf F` (defined with the
+same `memberAt` as the sequential model) is a covered configuration for every rd ≥ 2, and, without faults, on
+every path every completed `nextBlock`/`Seek` installs exactly the protocol view (`blkOf`) of the block the
+sequential reader loads at that offset (`Block.load F _ e`: that member with its payload, or the failed block).
+`Read`/`ReadByte`/`Seek` compute what they return from the current block only and obtain blocks only through
+these two calls, and what the sequential reader returns over the same file is the flat bytes
+(first conjunct = `read_refines_flat`): a history with rd > 1 returns the bytes of the flat copy at the logical
+position.  (The step from "same blocks" to "same bytes" is the structure of the code, not a Lean statement:
+the protocol model carries no payload.) -/
+theorem readahead_history_returns_flat_bytes (F : File) (hwf : WF F) (r0 : Reader)
+    (h0 : Reader.new F = .ok r0) (ops : List Spec.Flat.Op) (hv : ValidOps (layoutOf F) ops)
+    (rd : Nat) (hrd : 2 ≤ rd) (script : List ReadAhead.Op) :
+    (r0.run ops).map Reader.observe = (run (flatOf F) init ops).map observeFlat ∧
+    (Cfg.mk rd (chainOf F) script false).OK ∧
+    (∀ (s t : ReadAhead.State) (l : Label) (e : Option Ev),
+      Reachable (Cfg.mk rd (chainOf F) script false) s →
+      next (Cfg.mk rd (chainOf F) script false) s l = some (e, t) →
+      (∀ b i ok b0, s.cons = .scan b i → t.cons = .ret ok → t.cur = blkOf (Block.load F b0 b).1) ∧
+      (∀ w ok b0, s.cons = .send w → t.cons = .ret ok → t.cur = blkOf (Block.load F b0 w).1)) := by
+  have hok := cfg_ok hwf rd hrd script false
+  refine ⟨read_refines_flat F hwf r0 h0 ops hv, hok, fun s t l e hr hs => ?_⟩
+  have := readahead_refines_sequential _ hok rfl s t l e hr hs
+  exact ⟨fun b i ok b0 h1 h2 => by rw [this.1 b i ok h1 h2, blkOf_load hwf],
+    fun w ok b0 h1 h2 => by rw [this.2 w ok h1 h2, blkOf_load hwf]⟩
+
+open Hts.Model Hts.Model.ReadAhead in
 /-- After `Close` has returned the worker goroutine has returned. -/
 theorem reader_no_leak (cfg : Cfg) (hc : cfg.OK) (s : ReadAhead.State) (h : Reachable cfg s) (hcl : s.cons = .closed) :
     ∃ held, s.worker = .exited held :=
@@ -217,6 +261,17 @@ example :
        .api true false, .api false false, .api false false, .api false false, .wk false, .wk false, .wk false, .wk false,
        .api false false, .api false false, .api false false, .api false false, .api false false, .api false false, .wk false, .wk false,
        .wk false, .wk false, .api false false, .api false false, .api false false, .wk false, .api false false]).map (·.cons) = some .closed := by
+  decide
+
+open Hts.Model Hts.Model.ReadAhead in
+/-- Non-vacuity with faults: rd = 2, the worker's second load fails (`.wk true`); after `Seek 60` the consumer's
+`nextBlock` meets the failed block of another offset and takes the synchronous fall-back (`fetch 90`). -/
+example :
+    let cfg : Cfg := ⟨2, fun b => if b < 120 ∧ b % 30 = 0 then some (b + 30) else none, [.seek 60, .next, .close], true⟩
+    (runLabels cfg (init cfg)
+      [.api false false, .api false false, .api false false, .api false false, .wk false, .wk false,
+       .api false false, .api false false, .api false false, .wk true, .wk false, .api false false]).map (·.cons) =
+      some (.fetch 90) := by
   decide
 
 /-! ### Non-vacuity: the hypotheses are satisfiable by a file with empty members in the middle and at the
